@@ -3,13 +3,13 @@
    reg(k, kind, iv, jit): function k registered through Do / Periodic / Trigger / PeriodicOrTrigger
    (kind "do" | "per" | "trig" | "ptrig"; iv, jit in ms). fire(k) = the trigger function of k is called.
    fbegin(k) / fend(k) are logged by f itself. stop = Stop() or the parent context is cancelled (called);
-   call/ret of StopAndWait; q(t) = quiescence at fake time t. *)
+   call/ret of StopAndWait (any number of calls, also concurrent ones: each is a barrier); q(t) = quiescence at fake time t. *)
 EXTENDS Integers, Sequences, FiniteSets, TLC, Json
 Trace == ndJsonDeserialize("trace.ndjson")
 VARIABLES regs, running, owed, lastBegin, stopped, swPending, swReturned, l
 vars == <<regs, running, owed, lastBegin, stopped, swPending, swReturned, l>>
 Ev == Trace[l]
-Init == /\ regs = <<>> /\ running = {} /\ owed = {} /\ lastBegin = <<>> /\ stopped = FALSE /\ swPending = FALSE /\ swReturned = FALSE
+Init == /\ regs = <<>> /\ running = {} /\ owed = {} /\ lastBegin = <<>> /\ stopped = FALSE /\ swPending = 0 /\ swReturned = FALSE
         /\ l = 1 /\ TLCSet(1, 0)
 Un(vs) == UNCHANGED vs
 K == DOMAIN regs
@@ -17,7 +17,7 @@ K == DOMAIN regs
 Slack == IF "slack" \in DOMAIN Ev THEN Ev.slack ELSE 0
 Next ==
   /\ l <= Len(Trace) /\ l' = l + 1
-  /\ CASE Ev.ev = "reset" -> regs' = <<>> /\ running' = {} /\ owed' = {} /\ lastBegin' = <<>> /\ stopped' = FALSE /\ swPending' = FALSE /\ swReturned' = FALSE
+  /\ CASE Ev.ev = "reset" -> regs' = <<>> /\ running' = {} /\ owed' = {} /\ lastBegin' = <<>> /\ stopped' = FALSE /\ swPending' = 0 /\ swReturned' = FALSE
        [] Ev.ev = "reg" ->
             /\ regs' = [k \in K \cup {Ev.k} |-> IF k = Ev.k THEN [kind |-> Ev.kind, iv |-> Ev.iv, jit |-> Ev.jit, live |-> ~stopped] ELSE regs[k]]
             /\ lastBegin' = [k \in K \cup {Ev.k} |-> IF k = Ev.k THEN Ev.t ELSE lastBegin[k]]
@@ -34,9 +34,9 @@ Next ==
             /\ Un(<<regs, stopped, swPending, swReturned>>)
        [] Ev.ev = "fend" -> /\ Ev.k \in running /\ running' = running \ {Ev.k} /\ Un(<<regs, owed, lastBegin, stopped, swPending, swReturned>>)
        [] Ev.ev = "stop" -> stopped' = TRUE /\ Un(<<regs, running, owed, lastBegin, swPending, swReturned>>)
-       [] Ev.ev = "call" -> swPending' = TRUE /\ stopped' = TRUE /\ Un(<<regs, running, owed, lastBegin, swReturned>>)
+       [] Ev.ev = "call" -> swPending' = swPending + 1 /\ stopped' = TRUE /\ Un(<<regs, running, owed, lastBegin, swReturned>>)
        [] Ev.ev = "ret" ->           \* StopAndWait is a barrier: nothing it started is still running
-            /\ running = {} /\ swReturned' = TRUE /\ swPending' = FALSE /\ Un(<<regs, running, owed, lastBegin, stopped>>)
+            /\ running = {} /\ swReturned' = TRUE /\ swPending' = swPending - 1 /\ Un(<<regs, running, owed, lastBegin, stopped>>)
        [] Ev.ev \in {"adv", "rel", "leak"} -> Un(<<regs, running, owed, lastBegin, stopped, swPending, swReturned>>)
        [] Ev.ev = "q" ->
             /\ Un(<<regs, running, owed, lastBegin, stopped, swPending, swReturned>>)
@@ -44,7 +44,7 @@ Next ==
             \* periodic functions keep being invoked: the next run is due at most iv + jit after the last one began
             /\ (~stopped => \A k \in K : (regs[k].live /\ regs[k].kind \in {"per", "ptrig"} /\ k \notin running)
                                           => Ev.t - lastBegin[k] <= regs[k].iv + regs[k].jit + Slack)
-            /\ (swPending => running # {})                          \* StopAndWait only waits for running functions
+            /\ (swPending > 0 => running # {})                        \* StopAndWait only waits for running functions
             /\ (swReturned => running = {})
 Spec == Init /\ [][Next]_vars
 HWM == TLCSet(1, IF TLCGet(1) < l THEN l ELSE TLCGet(1))
